@@ -125,6 +125,15 @@ func runDomains(t *testing.T, rc *RunCtx) {
 				classes[len(classes)-1] = "shifted-boundary"
 				rc.Stats.Inc("probe_shifted_boundary_requests", 1)
 			}
+			if (kind == "gen" || kind == "multi") && ch.Pick(10, 0) == 9 {
+				// A domain of one to three bytes: the leading bytes of a slashable (or the exit) type, as a wire decoder
+				// hands it over (its capacity is rounded up, so taking four bytes of it reads zeros).  Whatever such a
+				// request is taken for, what comes out must not be a signature under that type.
+				short := [][]byte{{1}, {0}, {4}, {1, 0}, {0, 0, 0}, {4, 0, 0}, {1, 0, 0}}[ch.Pick(7, 0)]
+				e.Domain = append(make([]byte, 0, 8), short...)
+				classes[len(classes)-1] = "short-domain"
+				rc.Stats.Inc("probe_short_domain_requests", 1)
+			}
 			e.ByKey = ch.Pick(3, 0) == 1
 			o.Entries = append(o.Entries, e)
 		}
